@@ -399,6 +399,10 @@ func confirms(f *symexec.Finding, o replayOutcome) bool {
 		return o.Outcome == "panic" || o.Outcome == "crash"
 	case "UNWIND":
 		return o.Outcome == "timeout"
+	case "SHAREDWRITE":
+		// an engine observation on a path: confirmed when the same inputs take the same
+		// path natively (the write itself is not observable from a test)
+		return o.Outcome == "ok" || o.Outcome == "tape"
 	}
 	return false
 }
